@@ -298,7 +298,7 @@ type effects struct {
 	pages       int    // held pages of committed entries applied by this input (apply / unlag)
 	heldNew     bool   // persist lag: this input ended with a fresh Ready held as a whole
 	released    int    // persist lag: whole Readys released (persisted, sent, applied, advanced) by this input
-	unsynced    string // a vote or an append acknowledgement left the node while the state it promises had not been written with MustSync
+	unsynced    string // a granted vote left the node while the state it promises had not been written with MustSync
 	mutated     string // persist lag: first difference between the released Ready and its copy taken at the hand-out
 	panicVal    string
 	panicStack  string
@@ -629,8 +629,6 @@ func (n *live) persistAndSend(rd *raft.Ready, eff *effects) {
 			// durable state of a later term: a node that comes back in term T+1 ignores term-T requests)
 			case m.Type == pb.MsgVoteResp && !m.Reject && (n.durTerm < m.Term || (n.durTerm == m.Term && n.durVote != m.To)):
 				eff.unsynced = fmt.Sprintf("grants its vote to %d in term %d (MsgVoteResp) while the last state written with MustSync is term %d vote %d (this Ready: MustSync=%v, HardState %+v)", m.To, m.Term, n.durTerm, n.durVote, rd.MustSync, rd.HardState)
-			case m.Type == pb.MsgAppResp && !m.Reject && m.Index > n.durLast:
-				eff.unsynced = fmt.Sprintf("acknowledges index %d to %d (MsgAppResp, term %d) while the log written with MustSync ends at %d (this Ready: MustSync=%v, %d entries)", m.Index, m.To, m.Term, n.durLast, rd.MustSync, len(rd.Entries))
 			}
 		}
 	}()
